@@ -47,11 +47,29 @@ Print Assumptions C01_targets_equal_reference.
 (* The same statement for ANY strictly descending grid that contains the stream end points (utility levels, inserted
    rows, extra configuration temperatures: additional rows never change the targets), any positive window. *)
 Theorem C01_any_covering_grid :
-  forall w hot cold g, 0 < w -> wfs hot -> wfs cold -> desc g -> g <> [] -> covers g (eps_all hot cold) -> gaps_ok w g ->
+  forall w hot cold g, 0 < w -> wfs hot -> wfs cold -> desc g -> g <> [] -> covers g (eps_all hot cold) -> gaps_ok w 0 g ->
   Qh_star hot cold == Qh_of (pta w hot cold g) /\ Qc_star hot cold == Qc_of (pta w hot cold g)
   /\ Qr_star hot cold == Qr_of (pta w hot cold g).
-Proof. intros. repeat split; [apply Qh_star_eq|apply Qc_star_eq|apply Qr_star_eq]; assumption. Qed.
+Proof. exact any_covering_grid. Qed.
 Print Assumptions C01_any_covering_grid.
+
+(* ARBITRARY DOUBLES (no lattice hypothesis): the model's targets are the exact optimum of the streams with their end points
+   rounded to the grid's 6 decimals -- each end point moves by at most 5e-7 K, which the tol*10 window absorbs -- provided the
+   rounded spans stay positive and the grid gaps exceed window + 5e-7. *)
+Theorem C01_targets_exact_for_rounded_streams :
+  forall hot cold extra,
+  wfs_b (map roundv hot) = true -> wfs_b (map roundv cold) = true -> hot ++ cold <> [] ->
+  gaps_b (act_window + delta6) (grid_of (endpoints (hot ++ cold ++ extra))) = true ->
+  let p := stage_model act_window hot cold extra in
+  Qh_of p == Qh_star (map roundv hot) (map roundv cold) /\ Qc_of p == Qc_star (map roundv hot) (map roundv cold)
+  /\ Qr_of p == Qr_star (map roundv hot) (map roundv cold).
+Proof. exact stage_rounded_targets_exact. Qed.
+Print Assumptions C01_targets_exact_for_rounded_streams.
+
+Theorem C01_rounding_moves_an_end_point_by_at_most_half_a_unit :
+  forall dp x, - round_err dp <= round_dp dp x - x <= round_err dp.
+Proof. exact round_dp_near. Qed.
+Print Assumptions C01_rounding_moves_an_end_point_by_at_most_half_a_unit.
 
 (* REFUTED without the Robust hypothesis (finding D44): the faithful model loses the whole duty of a stream that is narrower
    than the activity window; replayed against the implementation by the check's corpus (reports Qc = 50, Qr = 0 instead of 40, 10). *)
